@@ -169,7 +169,7 @@ def mPut (s : State) (r : String) (ref : String) (ct : String) (qd : String) (bo
   | .ok a => mCommit s r bodyName a
 
 def getDesc (ix : Index) (arg : String) : Option Desc :=
-  if ix.manifests.isEmpty then none
+  if ix.manifests.isEmpty ∧ ix.children.isEmpty then none
   else if isTag arg then getDescTag ix arg
   else match DigArg.parse arg with
     | .ok d => getDescDig ix d.str
